@@ -31,6 +31,26 @@ three replaces with different fields with every link retained; sampled longer pr
 A divergence of a retained table that the table's own history (the ops applied to that object itself, as a linear
 program) shows as well is left to that linear program; the others get <place> = retained:observe / retained:write.
 
+Second file of the same format (run_second).  What the lazy class remembers of a file (its header: the header
+context of the table and the header bytes of a write) must be that of the table's OWN file whatever was read before
+in the same process.  Header-bearing file pairs "<format>+hdr" (bed, bed6, bed12, bedGraph, narrowPeak, chrom.sizes,
+pairs, gfa, wig, VCF with and without ##INFO lines, SAM, BAM, bed.gz): the records of file A / file B as above, but
+the two files start with DIFFERENT header / leading comment lines (other text, other number of lines; BAM: other
+header text and reference list).  Read modes: seq:<how1>><how2>:<AB|BA> - the first file is read with how1, then
+the second one with how2 in the same process (how = read | one read_chunk | all read_chunks); t = the table of the
+file read second, u = that of the file read first (so [swap] observes the first table after the second read);
+inter:<AB|BA> - two readers open, chunks read alternately; whole and chunk:<n> as above.  The same lock-step
+lazy/eager oracle; the header context (t.get_context("header")) is an op of its own and one more observation of
+the full observation.  Programs: every program of at most one op (two ops for four formats, thorough) over
+{header, write, get, tolist, t[slice], t[mask], t[int list], t[:], swap, concatenate tu/ut/tt, replace, t.f = v}.
+Signatures of this family carry the plain format name; a divergence that the plain file pair (read as a whole)
+does not show for the same program gets the marker ":header-files-only" after the program shape.  Where the
+source file of the table is known (only unary ops since it was read) the signature says whether the LAZY table
+shows / writes a header that is not the header of its own file (reference: the leading lines / BAM header this file
+wrote): ...:lazy-header-not-of-its-file (header observation, written header lines, and - refining the divergence
+"only the eager write fails" - the header the lazy write emitted).  <format>:header-context:eager-table-has-none =
+the eager table has no header context at all (KeyError) where the lazy one has: one signature whatever the program.
+
 Signatures.  A failing program is delta-minimised (ops deleted while the same divergence remains; each remaining op
 named by its most canonical variant that keeps the divergence) and the signature is
     <format>:<minimal program shape>[:chunked-only]=><place>:<divergence>
@@ -209,23 +229,121 @@ FORMATS = {
 GZ_FORMATS = {"bed.gz": "bed"}
 ALL_FORMATS = list(FORMATS) + list(GZ_FORMATS)
 
+# ----------------------------------------------------------------------------------------------------------------
+# header-bearing file pairs ("<format>+hdr"): the same records, but file A and file B of a format start with
+# DIFFERENT header / leading comment lines (different text and a different number of lines); the chunked file AB
+# has the header of A.  Written from the format specifications: '#' comment lines before the first record for the
+# delimited formats, '@' header lines of SAM, '##' meta lines and the '#CHROM' line of VCF, the text and the
+# reference list of the BAM header.  Used by the second-file family (run_second) only.
+# ----------------------------------------------------------------------------------------------------------------
+HDR = "+hdr"
+HDR_FORMATS = ("bed", "bed6", "bed12", "bdg", "narrowPeak", "sizes", "pairs", "gfa", "wig", "vcf", "vcf0", "sam", "bam",
+               "bed.gz")
+ALL_HDR_FORMATS = [f + HDR for f in HDR_FORMATS]
+
+
+def is_hdr(fmt):
+    return fmt.endswith(HDR)
+
+
+def plain(fmt):
+    """the format without the header variant: the name used in signatures"""
+    return fmt[:-len(HDR)] if is_hdr(fmt) else fmt
+
+
+def base_of(fmt):
+    p = plain(fmt)
+    return GZ_FORMATS.get(p, p)
+
+
+def is_gz(fmt):
+    return plain(fmt) in GZ_FORMATS
+
+
+VCF_COLUMNS = b"#CHROM\tPOS\tID\tREF\tALT\tQUAL\tFILTER\tINFO\n"
+HDR_TEXT = {   # base format -> (leading lines of file A, leading lines of file B); default: comment lines
+    None: (b"#track of sample A\n", b"#sample B\n#caller=v2 second comment line\n"),
+    "pairs": (PAIRS_HEADER, PAIRS_HEADER + b"#sorted: none\n#shape: upper triangle\n"),
+    "sam": (SAM_HEADER, b"@HD\tVN:1.6\tSO:unsorted\n@SQ\tSN:ref\tLN:17637\n@SQ\tSN:chr2\tLN:500\n@CO\tsecond file\n"),
+    "vcf0": (b"##fileformat=VCFv4.2\n" + VCF_COLUMNS, b"##fileformat=VCFv4.3\n##source=callerB\n" + VCF_COLUMNS),
+    "vcf": (VCF_HEADER, VCF_HEADER.replace(b"VCFv4.2\n", b"VCFv4.3\n##source=callerB\n")),
+}
+BAM_HDR = {"A": (BAM_TEXT, BAM_REFS), "B": (BAM_TEXT + "@CO\tsecond file\n", BAM_REFS + [("chr3", 77)])}
+
 
 def file_bytes(fmt, which):
-    base = GZ_FORMATS.get(fmt, fmt)
+    base = base_of(fmt)
     suffix, writer, A, B = FORMATS[base]
     rows = {"A": A, "B": B, "AB": A + B}[which]
+    if is_hdr(fmt):
+        if base == "bam":
+            from .refmodels.bam_writer import encode_bam
+            text, refs = BAM_HDR["B" if which == "B" else "A"]
+            return encode_bam(text, refs, [_bam_rec(*r) for r in rows])
+        lead = HDR_TEXT.get(base, HDR_TEXT[None])[1 if which == "B" else 0]
+        return lead + (_tsv(rows) if base in HDR_TEXT else writer(rows))
     return writer(rows)
 
 
 def file_name(fmt, which):
-    base = GZ_FORMATS.get(fmt, fmt)
-    return "%s_%s%s%s" % (base, which, FORMATS[base][0], ".gz" if fmt in GZ_FORMATS else "")
+    base = base_of(fmt)
+    return "%s_%s%s%s%s" % (base, "hdr_" if is_hdr(fmt) else "", which, FORMATS[base][0], ".gz" if is_gz(fmt) else "")
+
+
+def comment_prefix(fmt):
+    base = base_of(fmt)
+    c = COMMENT_PREFIX.get(base)
+    if c is None and is_hdr(fmt) and base != "bam":
+        c = "#"
+    return c
+
+
+def bam_header_length(data):
+    """number of bytes of the header of an (uncompressed) BAM stream, from the specification: magic, l_text, text,
+    n_ref, then l_name, name, l_ref per reference; 0 if the stream does not start with a BAM header"""
+    import struct
+    raw = data.encode("latin1") if isinstance(data, str) else data
+    if raw[:4] != b"BAM\x01" or len(raw) < 12:
+        return 0
+    try:
+        pos = 8 + struct.unpack_from("<i", raw, 4)[0]
+        n_ref = struct.unpack_from("<i", raw, pos)[0]
+        pos += 4
+        for _ in range(n_ref):
+            pos += 4 + struct.unpack_from("<i", raw, pos)[0] + 4
+    except struct.error:
+        return 0
+    return pos if pos <= len(raw) else 0
+
+
+def header_block(fmt, text):
+    """the header of a written file (decoded, BAM decompressed): the leading header / comment lines, the BAM
+    header"""
+    if base_of(fmt) == "bam":
+        return text[:bam_header_length(text)]
+    c = comment_prefix(fmt)
+    out = []
+    for l in text.splitlines(True):
+        if c is None or not l.startswith(c):
+            break
+        out.append(l)
+    return "".join(out)
+
+
+def own_header(fmt, which):
+    """the header a table read from this file has to carry and to write: that of its OWN file (reference: the
+    bytes written above)"""
+    data = file_bytes(fmt, which)
+    if base_of(fmt) == "bam":
+        import gzip
+        data = gzip.decompress(data)
+    return header_block(fmt, data.decode("latin1"))
 
 
 def chunk_sizes(fmt):
     """min_chunk_size values for the chunked mode: about a half and about a third of the record bytes (the header
     is read separately), so that the 5 records come as 2-3 chunks of 1-3 records"""
-    base = GZ_FORMATS.get(fmt, fmt)
+    base = base_of(fmt)
     if base == "bam":
         return [200, 150]
     writer, A, B = FORMATS[base][1:]
@@ -362,16 +480,19 @@ class Skip(Exception):
 class Env:
     def __init__(self, tmp, fmt, mode):
         self.tmp, self.fmt, self.mode = tmp, fmt, mode
-        self.buffer_type = _buffer(GZ_FORMATS.get(fmt, fmt))
+        self.buffer_type = _buffer(base_of(fmt))
+        self.hdr = is_hdr(fmt)        # header-bearing file pair: the header context is observed as well
+        self.signame = plain(fmt)     # the format name of the signatures
         self.paths = {}
         self.nwrite = 0
         self.hist_cache = {}   # own history of a retained table -> divergences of its full observation
+        self._own = {}
 
     def path(self, which):
         if which not in self.paths:
             p = os.path.join(self.tmp, file_name(self.fmt, which))
             data = file_bytes(self.fmt, which)
-            if self.fmt in GZ_FORMATS:
+            if is_gz(self.fmt):
                 import gzip
                 with gzip.open(p, "wb") as f:
                     f.write(data)
@@ -380,6 +501,72 @@ class Env:
                     f.write(data)
             self.paths[which] = p
         return self.paths[which]
+
+    def sources(self):
+        """the files the registers [t, u] come from"""
+        if self.mode == "whole":
+            return ["A", "B"]
+        kind = self.mode.split(":")[0]
+        if kind == "seq":       # t = the file read second, u = the file read first
+            order = self.mode.split(":")[2]
+            return [order[1], order[0]]
+        if kind == "inter":     # t = second chunk of the file opened first, u = first chunk of the other file
+            order = self.mode.split(":")[1]
+            return [order[0], order[1]]
+        return ["AB", "AB"]
+
+    def own_header(self, which):
+        if which not in self._own:
+            self._own[which] = own_header(self.fmt, which)
+        return self._own[which]
+
+    def _read_seq(self, lazy):
+        """two files of the same format read one after the other in this process, each in one of the three public
+        ways (read / one read_chunk / all read_chunks) -> [table of the second file, table of the first file];
+        or ("inter") two readers open at the same time, chunks read alternately"""
+        import bionumpy as bnp
+        parts = self.mode.split(":")
+        size = chunk_sizes(self.fmt)[1]
+        readers = []
+
+        def opened(which, how):
+            f = bnp.open(self.path(which), lazy=((None if lazy else False) if how == "read" else lazy),
+                         buffer_type=self.buffer_type)
+            readers.append(f)
+            return f
+
+        def get(which, how):
+            f = opened(which, how)
+            if how == "read":
+                return f.read()
+            if how == "chunk":       # the first chunk
+                return f.read_chunk(min_chunk_size=size)
+            chunks = list(f.read_chunks(min_chunk_size=size))   # "chunks": all of them, the last one is kept
+            if not chunks:
+                raise ValueError("no chunk read")
+            return chunks[-1]
+
+        try:
+            if parts[0] == "seq":
+                how1, how2 = parts[1].split(">")
+                first = get(parts[2][0], how1)
+                second = get(parts[2][1], how2)
+                return [second, first]
+            # less than the shortest record line of the file opened first, so that its first chunk is not all of it
+            small = 75
+            if base_of(self.fmt) != "bam":
+                body = file_bytes(self.fmt, parts[1][0]).decode("latin1")[len(self.own_header(parts[1][0])):]
+                small = max(min(len(l) for l in body.splitlines(True)) // 2, 2)
+            f1, f2 = opened(parts[1][0], "chunk"), opened(parts[1][1], "chunk")
+            f1.read_chunk(min_chunk_size=small)
+            other = f2.read_chunk(min_chunk_size=small)
+            again = f1.read_chunk(min_chunk_size=small)
+            if len(again) == 0:
+                raise ValueError("no second chunk")
+            return [again, other]
+        finally:
+            for f in readers:
+                f.close()
 
     def read(self, lazy, need_u=True):
         """-> [t, u] for one mode"""
@@ -391,6 +578,8 @@ class Env:
                 with bnp.open(self.path(which), lazy=(None if lazy else False), buffer_type=self.buffer_type) as f:
                     out.append(f.read())
             return out if need_u else out + [None]
+        if self.mode.split(":")[0] in ("seq", "inter"):
+            return self._read_seq(lazy)
         size = int(self.mode.split(":")[1])
         with bnp.open(self.path("AB"), lazy=lazy, buffer_type=self.buffer_type) as f:
             chunks = list(f.read_chunks(min_chunk_size=size))
@@ -402,10 +591,10 @@ class Env:
         """write with the public writer; same file name in both modes (a gzip header stores it); compressed
         outputs are compared after decompression (the gzip header also stores a time stamp)"""
         import bionumpy as bnp
-        base = GZ_FORMATS.get(self.fmt, self.fmt)
+        base = base_of(self.fmt)
         d = os.path.join(self.tmp, "out_" + tag)
         os.makedirs(d, exist_ok=True)
-        p = os.path.join(d, "out%s%s" % (FORMATS[base][0], ".gz" if self.fmt in GZ_FORMATS else ""))
+        p = os.path.join(d, "out%s%s" % (FORMATS[base][0], ".gz" if is_gz(self.fmt) else ""))
         if os.path.exists(p):
             os.unlink(p)
         with bnp.open(p, "w", buffer_type=self.buffer_type) as f:
@@ -422,10 +611,19 @@ COMMENT_PREFIX = {"sam": "@", "vcf": "#", "vcf0": "#", "pairs": "#", "wig": "#"}
 
 
 def strip_comment_lines(fmt, text):
-    c = COMMENT_PREFIX.get(GZ_FORMATS.get(fmt, fmt))
+    if is_hdr(fmt) and base_of(fmt) == "bam":
+        return text[bam_header_length(text):]
+    c = comment_prefix(fmt)
     if c is None:
         return text
     return "".join(l for l in text.splitlines(True) if not l.startswith(c))
+
+
+def norm_header(h):
+    """the header context as a plain value (the BAM header object by its bytes)"""
+    if h is not None and not isinstance(h, (str, bytes, list, tuple)) and callable(getattr(h, "bytes", None)):
+        return {"header-bytes": h.bytes().decode("latin1")}
+    return norm(h)
 
 
 def prepare(op, fields, n_eager):
@@ -471,6 +669,8 @@ def apply_op(env, op, regs, arg, tag):
         return [norm(e) for e in t]
     if kind == "write":
         return env.write(t, tag)
+    if kind == "header":     # the header context of the table (what the writers put before the records)
+        return norm_header(t.get_context("header"))
     if kind == "item":
         return norm(t[arg])
     if kind == "idx":
@@ -522,15 +722,39 @@ def _outcome(fn):
         return ("exc", type(e).__name__, str(e)[:200])
 
 
-def _compare(step, where, lo, eo, bytes_like=False, fmt=None):
+NOT_OWN = "lazy-header-not-of-its-file"
+
+
+def _not_own(env, src, lazy_header, eager_header):
+    """header-bearing file pairs, table whose source file is known (only unary ops since it was read): the lazy
+    table shows / writes a header that is not the header of its own file although the eager one does, or it shows
+    the header of the OTHER file of the session"""
+    if env is None or not env.hdr or src is None or not isinstance(lazy_header, str):
+        return False
+    own = env.own_header(src)
+    if lazy_header.startswith(own):   # its own header (further comment lines after it: the comment-lines region)
+        return False
+    if eager_header == own:
+        return True
+    return any(lazy_header == env.own_header(w) != "" for w in set(env.sources()) - {src})
+
+
+def _compare(step, where, lo, eo, bytes_like=False, fmt=None, env=None, src=None):
     if lo[0] == "exc" and eo[0] == "exc":
         return "both-fail", None
+    if where == "write" and lo[0] == "ok" and eo[0] == "exc" and env is not None and env.hdr and \
+            _not_own(env, src, header_block(env.fmt, lo[1]), None):
+        # the eager write fails (a divergence whatever the lazy one writes); the lazy one writes another file's header
+        return None, Divergence(step, where, "only-eager-fails:%s:%s" % (eo[1], NOT_OWN),
+                                "eager raised %s(%s); lazy gave %r" % (eo[1], eo[2], _short(lo[1])))
     if lo[0] == "exc":
         return None, Divergence(step, where, "only-lazy-fails:" + lo[1], "lazy raised %s(%s); eager gave %r" % (lo[1], lo[2], _short(eo[1])))
     if eo[0] == "exc":
         return None, Divergence(step, where, "only-eager-fails:" + eo[1], "eager raised %s(%s); lazy gave %r" % (eo[1], eo[2], _short(lo[1])))
     if lo[1] != eo[1]:
         kind = "values-differ:" + diff_class(lo[1], eo[1])
+        if where == "header" and _not_own(env, src, lo[1], eo[1]):
+            kind = "values-differ:" + NOT_OWN
         if bytes_like:
             kind = "bytes-differ:" + diff_class(lo[1], eo[1])
             lb, eb = strip_comment_lines(fmt, lo[1]), strip_comment_lines(fmt, eo[1])
@@ -539,6 +763,8 @@ def _compare(step, where, lo, eo, bytes_like=False, fmt=None):
                 nl, ne = len(lo[1]) - len(lb), len(eo[1]) - len(eb)
                 d = Divergence(step, where, kind, "lazy %r != eager %r" % (_short(lo[1]), _short(eo[1])))
                 d.header = "eager-writes-less" if ne < nl else ("lazy-writes-less" if nl < ne else "same-size-other-text")
+                if _not_own(env, src, header_block(fmt, lo[1]), header_block(fmt, eo[1])):
+                    d.header = NOT_OWN
                 return None, d
         return None, Divergence(step, where, kind, "lazy %r != eager %r" % (_short(lo[1]), _short(eo[1])))
     return "equal", None
@@ -589,6 +815,7 @@ def _execute(env, prog):
     soft = []   # header-only differences of a write inside the program: recorded, the program goes on
     status = "ok"
     fields = [(f.name, field_kind(f.type)) for f in dataclasses.fields(E[0])]
+    env.srcs = srcs = env.sources()   # the file every register comes from (None after a concatenation)
     for step, op in enumerate(prog):
         try:
             n = len(E[0])
@@ -604,7 +831,8 @@ def _execute(env, prog):
         la, ea = mk(), mk()
         lo = _outcome(lambda: apply_op(env, op, L, la, "lazy"))
         eo = _outcome(lambda: apply_op(env, op, E, ea, "eager"))
-        st, d = _compare(step, op[0], lo, eo, bytes_like=(op[0] == "write"), fmt=env.fmt)
+        st, d = _compare(step, op[0], lo, eo, bytes_like=(op[0] == "write"), fmt=env.fmt, env=env, src=srcs[0])
+        _track(op, srcs)
         if d:
             d.empty = (n == 0)
             if d.kind == HEADER_ONLY:
@@ -617,9 +845,23 @@ def _execute(env, prog):
     return status, soft, L, E
 
 
-def _observe(env, lt, et, step):
-    """the full observation (len, every field in declaration order, tolist, written bytes) of one table in both
-    modes -> (n rows of the eager table, [(where, op, Divergence or None)])"""
+def _track(op, srcs):
+    """the register moves of apply_op on the list of source files"""
+    k = op[0]
+    if k == "cat":
+        srcs[0] = None
+    elif k == "swap":
+        srcs[0], srcs[1] = srcs[1], srcs[0]
+    elif k == "keep":
+        srcs.append(srcs[0])
+    elif k == "swapk":
+        srcs[0], srcs[-1] = srcs[-1], srcs[0]
+
+
+def _observe(env, lt, et, step, src=None):
+    """the full observation (len, every field in declaration order, tolist, written bytes; of the header-bearing
+    file pairs the header context as well) of one table in both modes -> (n rows of the eager table, [(where, op,
+    Divergence or None)])"""
     try:
         names = [f.name for f in dataclasses.fields(et)]
     except Exception:
@@ -629,11 +871,13 @@ def _observe(env, lt, et, step):
     except Exception:
         n = 0
     obs = [("len", ["len"])] + [("get", ["get", f]) for f in names] + [("tolist", ["tolist"]), ("write", ["write"])]
+    if env.hdr:
+        obs.append(("header", ["header"]))
     out = []
     for where, op in obs:
         lo = _outcome(lambda: apply_op(env, op, [lt, None], None, "lazy"))
         eo = _outcome(lambda: apply_op(env, op, [et, None], None, "eager"))
-        st, d = _compare(step, where, lo, eo, bytes_like=(op[0] == "write"), fmt=env.fmt)
+        st, d = _compare(step, where, lo, eo, bytes_like=(op[0] == "write"), fmt=env.fmt, env=env, src=src)
         out.append((where, op, d))
     return n, out
 
@@ -658,7 +902,7 @@ def run_program(env, prog, final=True):
             if d.key() not in seen:
                 seen.add(d.key())
                 divs.append(d)
-    n, raw = _observe(env, L[0], E[0], len(prog))
+    n, raw = _observe(env, L[0], E[0], len(prog), src=env.srcs[0])
     for where, op, d in raw:
         if d and _is_consequence(where, d, any(x.op == "get" and x.kind.startswith("values-differ") and
                                                x.step == len(prog) and not x.where.startswith(RETAINED)
@@ -734,7 +978,7 @@ def retained_divergences(env, prog, L, E):
             continue    # still the current table in both modes: the final observation is its observation
         if any(L[k] is L[j] and E[k] is E[j] for j in range(2, k)):
             continue    # retained twice
-        n, raw = _observe(env, L[k], E[k], len(prog))
+        n, raw = _observe(env, L[k], E[k], len(prog), src=(env.srcs[k] if k < len(env.srcs) else None))
         if not any(d for where, op, d in raw):
             continue
         explained = own_history_divergences(env, hists[k - 2]) if hists is not None else set()
@@ -842,21 +1086,27 @@ def field_names(env):
 
 
 def signature(env, labels, div, chunked_only=False):
-    return "%s:%s%s=>%s:%s" % (env.fmt, ">".join(labels) if labels else "read", ":chunked-only" if chunked_only else "",
-                               div.where, div.kind)
+    """chunked_only: True -> ":chunked-only"; a string -> that marker (":header-files-only" = seen with the
+    header-bearing file pair / the sequential reads of the second-file family, not with the plain files)"""
+    marker = (":" + chunked_only) if isinstance(chunked_only, str) else (":chunked-only" if chunked_only else "")
+    return "%s:%s%s=>%s:%s" % (env.signame, ">".join(labels) if labels else "read", marker, div.where, div.kind)
 
 
 def collapsed_signature(env, div):
     """divergences that cover a whole region of the scope whatever the program: one signature, no minimisation"""
     ret = div.where.startswith(RETAINED)   # a retained table: never the signature of the linear region
+    fmt = env.signame
     if div.kind == HEADER_ONLY:
-        return "%s:%swrite:%s:%s" % (env.fmt, RETAINED if ret else "", HEADER_ONLY, getattr(div, "header", "?"))
+        return "%s:%swrite:%s:%s" % (fmt, RETAINED if ret else "", HEADER_ONLY, getattr(div, "header", "?"))
+    if div.where.endswith("header") and div.kind == "only-eager-fails:KeyError" and "KeyError('header')" in div.detail:
+        # the eager table has no header context at all (never had one, or lost it when it was derived)
+        return "%s:%sheader-context:eager-table-has-none" % (fmt, RETAINED if ret else "")
     if div.empty:
-        return "%s:empty-table=>%s:%s" % (env.fmt, div.where, div.kind)
+        return "%s:empty-table=>%s:%s" % (fmt, div.where, div.kind)
     if "only 0-dimensional arrays can be converted" in div.detail:
         # t[i] / str(t) of a table with ragged columns: npstructures' single-row access raises under this numpy
         # unless the column happens to be contiguous; which mode fails depends on what was materialised before
-        return "%s:%ssingle-row-access:one-mode-fails:ragged-row-TypeError" % (env.fmt, RETAINED if ret else "")
+        return "%s:%ssingle-row-access:one-mode-fails:ragged-row-TypeError" % (fmt, RETAINED if ret else "")
     return None
 
 
@@ -913,7 +1163,7 @@ def alphabet(fields, level):
     return out
 
 
-PURE = ("len", "tolist", "write", "item", "str", "get", "iter")
+PURE = ("len", "tolist", "write", "item", "str", "get", "iter", "header")
 
 
 def pair_programs(mini):
@@ -1134,7 +1384,7 @@ class Runner:
         except Exception as e:  # harness problem: report as a failure of its own class, never silently
             import traceback
             col.case(case, contract=contract)
-            col.fail("%s:harness-exception:%s" % (fmt, type(e).__name__), case, traceback.format_exc()[-500:])
+            col.fail("%s:harness-exception:%s" % (plain(fmt), type(e).__name__), case, traceback.format_exc()[-500:])
             return "error"
         self.stats[status] = self.stats.get(status, 0) + 1
         if status == "skip":
@@ -1158,7 +1408,12 @@ class Runner:
                 except Exception:
                     mprog, canon, labels = body, body, [o[0] for o in body]
                 chunked_only = False
-                if mode != "whole":
+                if is_hdr(fmt):   # does the plain file pair, read as a whole, show it as well?
+                    try:
+                        chunked_only = False if _has(self.env(plain(fmt), "whole"), canon, d.key()) else "header-files-only"
+                    except Exception:
+                        chunked_only = "header-files-only"
+                elif mode != "whole":
                     try:
                         chunked_only = not _has(self.env(fmt, "whole"), canon, d.key())
                     except Exception:
@@ -1255,6 +1510,101 @@ def run_retained(col, r, tier):
     return info
 
 
+# ----------------------------------------------------------------------------------------------------------------
+# second-file family: two files of one format with different headers, read one after the other in this process
+# ----------------------------------------------------------------------------------------------------------------
+# The lazy class carries the header of the file (the header context of the table, the header bytes of a write);
+# whatever is remembered per process, per buffer type or per reader must not leak from one file into the table of
+# another.  Read modes (Env._read_seq): "seq:<how1>><how2>:<order>" - the first file of the order (AB: file A then
+# file B, BA: the other way round) is read with how1, then the second one with how2 (read = whole read, chunk =
+# one read_chunk, chunks = all read_chunks, the last chunk kept); t = the table of the file read SECOND, u = the
+# table of the file read first (so [swap] observes the first table after the second read).  "inter:<order>" - both
+# readers open, a chunk of the first file, a chunk of the other file, then the next chunk of the first file = t.
+# "whole" and "chunk:<n>" as for the plain files (t = file A, u = file B read after it; first and last chunk of the
+# one file AB).  The same lock-step oracle; the header context (get_context("header")) is one more observation of
+# the full observation and an op of its own.
+
+HOWS = ("read", "chunk", "chunks")
+SEQ_MODES = ["seq:%s>%s:%s" % (a, b, o) for o in ("AB", "BA") for a in HOWS for b in HOWS] + ["inter:AB", "inter:BA"]
+SEQ_MAIN = ["seq:read>read:AB", "seq:read>read:BA", "seq:chunk>read:AB", "seq:read>chunk:AB", "seq:chunks>chunks:BA",
+            "inter:AB"]
+SECOND_TWO = ("bed+hdr", "sam+hdr", "vcf0+hdr", "bam+hdr")
+SECOND_FAMILIES = [f + HDR for f in ("bed", "bdg", "wig", "gfa", "pairs", "vcf0", "vcf", "sam", "bam")]   # one per buffer family
+
+
+def second_ops(fields):
+    names = [f for f, _ in fields]
+    r = replaceable(fields)
+    ops = [["header"], ["write"], ["get", names[0]], ["tolist"]] + \
+          [["idx", x] for x in ("s_tail", "m_alt", "i_rev", "s_all")] + \
+          [["swap"], ["cat", "tu"], ["cat", "ut"], ["cat", "tt"]]
+    if r:
+        ops += [["replace", r[0], "fresh"], ["set", r[0], "fresh2"]]
+    return ops
+
+
+def second_programs(fields, level):
+    """mini: the table as read (full observation), header, t[1:], the first table after the second read;
+    one: every program of at most one op of second_ops; two: every program of exactly two"""
+    if level == "mini":
+        return [[], [["header"]], [["idx", "s_tail"]], [["swap"]]]
+    ops = second_ops(fields)
+    if level == "one":
+        return [[]] + [[o] for o in ops]
+    return [[a, b] for a in ops for b in ops if not redundant([a, b])]
+
+
+def plan_second(tier):
+    """-> (tasks in order of priority, seconds); task = (level, fmt, mode)"""
+    cs = {f: "chunk:%d" % chunk_sizes(f)[0] for f in ALL_HDR_FORMATS}
+    if tier == "quick":
+        t = [("one" if f in SECOND_FAMILIES else "mini", f, "seq:read>read:AB") for f in ALL_HDR_FORMATS]
+        t += [("mini", f, m) for m in SEQ_MAIN[1:] for f in SECOND_FAMILIES]
+        return t, 12
+    t = [("one", f, m) for m in SEQ_MAIN for f in ALL_HDR_FORMATS]
+    t += [("mini", f, m) for m in SEQ_MODES if m not in SEQ_MAIN for f in ALL_HDR_FORMATS]
+    t += [("mini", f, m) for f in ALL_HDR_FORMATS for m in ("whole", cs[f])]
+    t += [("two", f, "seq:read>read:AB") for f in SECOND_TWO]
+    return t, 70
+
+
+def run_second(col, r, tier):
+    tasks, seconds = plan_second(tier)
+    info = {"formats": ALL_HDR_FORMATS, "seconds": seconds, "tasks": [], "cut": [],
+            "headers": "file A and file B of a format start with different header / comment lines (another text, "
+                       "another number of lines; BAM: another text and reference list), file AB has those of A",
+            "modes": "seq:<how1>><how2>:<AB|BA> (how = read | chunk | chunks), inter:<AB|BA>, whole, chunk:<n>",
+            "programs": "mini: 4 programs (as read, header, t[1:], swap); one: at most one op of 12-14 (header, "
+                        "write, get, tolist, 4 index kinds, swap, 3 concatenations, replace, assignment); two: every "
+                        "pair of them; always followed by the full observation incl. the header context"}
+    t0 = time.time()
+    stop = False
+    for level, fmt, mode in tasks:
+        if stop or time.time() - t0 > seconds:
+            stop = True
+            col.exhaustive = False
+            info["cut"].append([level, fmt, mode])
+            continue
+        contract = "second-file:%s" % mode.split(":")[0]
+        env = r.env(fmt, mode)
+        try:
+            if (fmt, mode) not in r.fields:
+                r.fields[(fmt, mode)] = field_names(env)
+                r.no_item[(fmt, mode)] = False
+            fields = r.fields[(fmt, mode)]
+        except Exception as e:
+            case = {"fmt": fmt, "mode": mode, "prog": []}
+            col.case(case, contract="read")
+            col.fail("%s:second-file:eager-read-fails:%s" % (plain(fmt), type(e).__name__), case, str(e)[:300])
+            continue
+        n0 = col.evaluations
+        for prog in second_programs(fields, level):
+            r.evaluate(fmt, mode, [list(o) for o in prog], contract)
+        info["tasks"].append({"level": level, "fmt": fmt, "mode": mode, "evaluated": col.evaluations - n0})
+    info["wall_s"] = round(time.time() - t0, 1)
+    return info
+
+
 def run(tier="quick", seed=0):
     col = Collector(PID, tier, seed,
                     "every program (sequence of public ops: len, get f, t[slice|mask|int list], t[i], concatenate tu/ut/tt/tut, "
@@ -1266,20 +1616,30 @@ def run(tier="quick", seed=0):
                     "(retain the current table) / swapk (go on with the retained one) - t1 made by replace / assignment of "
                     "f1, retained, then replace f2 / index / concatenate / write of tables derived from it and assignments "
                     "to either, chains of 3 replaces - over ordered pairs / triples of replaceable fields; every retained "
-                    "table gets the full observation after the last op.  distinct = distinct (format, read mode, "
+                    "table gets the full observation after the last op.  Second file: pairs of files of one format "
+                    "with different header / comment lines read one after the other in this process (read, one "
+                    "read_chunk, all read_chunks, two open readers interleaved; both orders), programs of at most "
+                    "one op (two, thorough) on the table read second / the table read first, the header context "
+                    "observed as well.  distinct = distinct (format, read mode, "
                     "program); non-trivial = program of length >= 1",
                     budget_s=(66 if tier == "quick" else 585))
     import logging
     logging.getLogger("bionumpy").setLevel(logging.ERROR)   # the library logs a warning per read/write
     tasks, samples = plan(tier)
-    bounds = {"formats": ALL_FORMATS, "records": "file A 3, file B 2, chunked file 5 (A+B)",
+    bounds = {"formats": ALL_FORMATS, "formats_with_header_lines": ALL_HDR_FORMATS,
+              "records": "file A 3, file B 2, chunked file 5 (A+B)",
               "chunk_sizes": {f: chunk_sizes(f) for f in ALL_FORMATS},
               "exhaustive": [], "sampled": [], "cut": []}
     with TmpDir() as tmp:
         r = Runner(col, tmp)
+        # first of all, so that its first reads are the first reads of these buffer types in the process; the time
+        # it takes is added to the budget of the other parts
+        bounds["second_file"] = run_second(col, r, tier)
+        col.budget_s += time.time() - col.t0
         bounds["retained"] = run_retained(col, r, tier)
         stop = False
-        sample_budget = 0.85 * col.budget_s   # the exhaustive part stops here so that the sampled part always runs
+        # the exhaustive part stops here so that the sampled part always runs
+        sample_budget = 0.85 * col.budget_s + 0.15 * bounds["second_file"]["wall_s"]
         for L, fmt, mode, level in tasks:
             contract = "lockstep:%s" % ("whole" if mode == "whole" else "chunked")
             try:
